@@ -233,6 +233,10 @@ class Term(ItemSequenceT[T]):
                     if not done:
                         accum_items.append(item)
                 accum_items = [item for item in accum_items if item[1] != 0]
+                if not keep_item_order:
+                    # elements with equal sort key which are not convertible
+                    # into each other need a defined order
+                    accum_items.sort(key=lambda item: str(item[0]))
                 res_items.extend(accum_items)
             else:  # numerical elements
                 group_it = cast(Iterator[Tuple[int, Tuple[Rational, int]]],
